@@ -26,12 +26,27 @@ Supported subset (anything else fails)
   expressions  int / bool / None literals; parameters and locals; `ev.attr` for the three ordering
                attributes of an event (directly or through a property `return self._f`); unary
                `-`, `not`; `+ - *` on ints; comparisons (also chained) `< > <= >= == !=`;
-               `and` / `or` of bools; `a if c else b`; `len(L)`, `L.count(x)`, `x in L`, `L[0]`,
+               `and` / `or` of bools (short-circuit control flow when an operand needs a bind);
+               `a if c else b` (a value, or -- when an operand needs a bind -- test first, then only the
+               chosen operand); `len(L)`, `L.count(x)`, `x in L`, `L[0]`,
                `entry[i]` (i = 0..3), truth value of L / a bool / a length; the entry tuple
-               `(+-ev.a, +-ev.b, +-ev.c, ev)`; heapq.heappop(L); self.m(..), ev.m(..) of a
-               translated method; `C.__event_counter`, `C.m()` of a classmethod, where the class
+               `(+-ev.a, +-ev.b, +-ev.c, ev)` -- the components may come through locals, what counts is
+               that each IS (minus) an ordering attribute of the event in the fourth place;
+               heapq.heappop(L); self.m(..), ev.m(..) of a translated method; calls of PRIVATE HELPERS
+               -- module-level functions of the same file, methods of the same class that are not part
+               of the translated interface (also @staticmethod) -- which are translated AT THE CALL
+               SITE: arguments evaluated first, left to right, parameters bound to their values,
+               `return v` continuing the caller with v (falling off the end: None); `C.__event_counter`, `C.m()` of a classmethod, where the class
                expression C is `SimEvent`, `cls`, `type(self)`, `self.__class__` or (method call /
                read only) `self`
+Refused with file:line (the translation never guesses): a helper that is recursive, decorated, takes *args /
+  **kwargs / defaults, contains a loop / try / with / nested function, or is bound twice at module level;
+  the list itself (or self) handed to a helper or bound to a local (aliasing); operands of a chained
+  comparison / an entry tuple that need a bind (their evaluation order could not be kept); `is`; loops.
+Control flow is translated in continuation-passing style, so a guard clause with an early return and the
+nested if / else it abbreviates give the same Gallina text, and so do a conditional expression and the
+if / else statement.  coq/EventList/GenAgree.v proves agreement by case analysis on the conditions, not by
+comparing texts.
 Meaning given to them
   * the state of an EventListHeap is the list `self._event_list`; an entry tuple
     (t, -p, id, ev) is the model's key `mkKey t (-p) id`, positionally.  The fourth component,
@@ -52,11 +67,12 @@ Meaning given to them
     attribute up on C and then on SimEvent (`cv_get`), assigning sets it ON THE CLASS C ITSELF
     (`cv_set`) -- so `SimEvent.__new_event_counter()` keeps one counter for all events while
     `self.__new_event_counter()` / `type(self)...` gives every subclass its own;
-  * SimEvent.__init__ is translated as a slice: the leading block of plain `self._x = ...`
-    assignments is translated (the three ordering attributes; other attributes must be assigned
-    a parameter and are not part of the model); the statements after that block (argument
-    validation) are left out ONLY after checking that they mention none of the modelled
-    attributes, the counter, or any reflective builtin; they are listed in the .json.
+  * SimEvent.__init__ is translated as a slice: the leading block of plain assignments -- `self._x = ...`
+    (the three ordering attributes; other attributes must be assigned a parameter and are not
+    part of the model), locals, `C.__event_counter (+)= ...` -- is translated; the statements
+    after that block (argument validation) are left out ONLY after checking that they mention
+    none of the modelled attributes, the counter, SimEvent or a reflective builtin, call no
+    method of self and do not hand self on; they are listed in the .json.
 
 Trusted (joins the trusted base of C01): this file -- the subset semantics above.
 
@@ -131,12 +147,17 @@ class Unsupported(Exception):
         super().__init__(f"{self.src}:{self.lineno}: unsupported construct: {what}")
 
 
+class NeedsBind(Unsupported):
+    """an operand that must be a plain value needs a bind (call, indexing): the caller may have another way"""
+
+
 class V:
     """a translated value: kind + Gallina text (atomic or parenthesised), or an int constant"""
-    __slots__ = ("kind", "tx", "const")
+    __slots__ = ("kind", "tx", "const", "prov")
 
-    def __init__(self, kind, tx=None, const=None):
-        self.kind, self.tx, self.const = kind, tx, const
+    def __init__(self, kind, tx=None, const=None, prov=None):
+        # prov: (text of an event, record projection, sign) when the value is +-(an ordering attribute of that event)
+        self.kind, self.tx, self.const, self.prov = kind, tx, const, prov
 
 
 def ind(text: str, n: int = 2) -> str:
@@ -161,10 +182,13 @@ class Env:
         self.h = None         # text of the current list (EventListHeap), None = not (yet) there
         self.cv = None        # text of the current class variables (SimEvent creation)
         self.fields = {}      # SimEvent.__init__: attr -> text
+        self.has_self = True  # False inside an inlined module-level function: `self` means nothing there
+        self.retk = None      # inside an inlined helper: what `return v` continues with
 
     def clone(self):
         e = Env()
         e.locals, e.h, e.cv, e.fields = dict(self.locals), self.h, self.cv, dict(self.fields)
+        e.has_self, e.retk = self.has_self, self.retk
         return e
 
 
@@ -194,6 +218,8 @@ class Module:
             self.tree = ast.parse(self.text)
         self.lines = self.text.split("\n")
         self.classes = {}
+        self.funcs = {}
+        self.nbound = {}
         self.heapq_name = None
         self.bound = set()
         for st in self.tree.body:
@@ -215,11 +241,14 @@ class Module:
                 self.bound.add(st.name)
             elif isinstance(st, (ast.FunctionDef, ast.AsyncFunctionDef)):
                 self.bound.add(st.name)
+                self.funcs[st.name] = st
+                self.nbound[st.name] = self.nbound.get(st.name, 0) + 1
             elif isinstance(st, (ast.Assign, ast.AnnAssign, ast.AugAssign)):
                 for t in (st.targets if isinstance(st, ast.Assign) else [st.target]):
                     for n in ast.walk(t):
                         if isinstance(n, ast.Name):
                             self.bound.add(n.id)
+                            self.nbound[n.id] = self.nbound.get(n.id, 0) + 1
             elif isinstance(st, ast.Expr) and isinstance(st.value, ast.Constant):
                 pass
             else:
@@ -245,6 +274,8 @@ class Translator:
         self.props = {}         # property name -> generated definition
         self.propfield = {}     # property name -> record projection
         self.group = None
+        self.inl_stack = []
+        self.inlined = set()
 
     # ------------------------------------------------------------------ helpers
     def mod(self, cls=None):
@@ -466,7 +497,20 @@ class Translator:
         i = 0
         while i < len(body):
             st = body[i]
-            tg = st.targets[0] if isinstance(st, ast.Assign) and len(st.targets) == 1 else (st.target if isinstance(st, ast.AnnAssign) and st.value is not None else None)
+            tg = st.targets[0] if isinstance(st, ast.Assign) and len(st.targets) == 1 else \
+                (st.target if (isinstance(st, ast.AnnAssign) and st.value is not None) or isinstance(st, ast.AugAssign) else None)
+            # a local, or the class counter, assigned among the attribute assignments: translated like any statement
+            if isinstance(tg, ast.Name) and tg.id != "self" and not isinstance(st, ast.AugAssign):
+                prefix.append(st)
+                i += 1
+                continue
+            if isinstance(tg, ast.Attribute) and self.demangle(tg.attr) == COUNTER and \
+                    not (isinstance(tg.value, ast.Name) and tg.value.id == "self"):
+                prefix.append(st)
+                i += 1
+                continue
+            if isinstance(st, ast.AugAssign):
+                break
             if tg is None or not (isinstance(tg, ast.Attribute) and isinstance(tg.value, ast.Name) and tg.value.id == "self"):
                 break
             if self.demangle(tg.attr) == COUNTER:
@@ -477,6 +521,20 @@ class Translator:
             i += 1
         rest = body[i:]
         for st in rest:
+            # `self` may only be used to read / write plain attributes there: a call of a method of self, or self
+            # handed to something else, could change the modelled attributes out of sight
+            ok_self, called = set(), set()
+            for n in ast.walk(st):
+                if isinstance(n, ast.Call):
+                    called.add(id(n.func))
+                if isinstance(n, ast.Attribute) and isinstance(n.value, ast.Name) and n.value.id == "self":
+                    ok_self.add(id(n.value))
+            for n in ast.walk(st):
+                if isinstance(n, ast.Name) and n.id == "self" and id(n) not in ok_self:
+                    self.fail(n, "SimEvent.__init__: `self` handed on after the leading block of attribute assignments")
+                if isinstance(n, ast.Attribute) and isinstance(n.value, ast.Name) and n.value.id == "self" and id(n) in called:
+                    self.fail(n, f"SimEvent.__init__: call of self.{n.attr}() after the leading block of attribute assignments "
+                                 "(it could change the modelled attributes out of sight)")
             for n in ast.walk(st):
                 bad = None
                 if isinstance(n, ast.Attribute) and (n.attr in GUARDED_ATTRS or self.demangle(n.attr) in GUARDED_ATTRS):
@@ -512,6 +570,8 @@ class Translator:
                     return f"(mkSev {env.fields['_absolute_time']} {env.fields['_priority']} {env.fields['_id']}, {env.cv})"
                 st = prefix[k]
                 tg = st.targets[0] if isinstance(st, ast.Assign) else st.target
+                if isinstance(tg, ast.Name) or self.demangle(tg.attr) == COUNTER:
+                    return self.stmt(st, env, lambda e2: step(k + 1, e2))
                 if tg.attr not in FIELDS:
                     return step(k + 1, env)
 
@@ -555,9 +615,10 @@ class Translator:
         if isinstance(s, ast.Pass):
             return k(env)
         if isinstance(s, ast.Return):
+            fin = (lambda v, e2: e2.retk(v, e2)) if env.retk else (lambda v, e2: self.ret(s, v, e2))
             if s.value is None:
-                return self.ret(s, V("None"), env)
-            return self.expr(s.value, env, lambda v, e2: self.ret(s, v, e2))
+                return fin(V("None"), env)
+            return self.expr(s.value, env, fin)
         if isinstance(s, (ast.Assign, ast.AnnAssign)):
             if isinstance(s, ast.Assign) and len(s.targets) != 1:
                 self.fail(s, "multiple assignment targets")
@@ -586,7 +647,7 @@ class Translator:
     def assign(self, node, tg, value, env, k):
         mode = self.ctx.mode
         if isinstance(tg, ast.Attribute):
-            if mode == "heap" and isinstance(tg.value, ast.Name) and tg.value.id == "self" and tg.attr == LIST_ATTR:
+            if self.is_list(tg, env):
                 ok = (isinstance(value, ast.List) and not value.elts) or \
                      (isinstance(value, ast.Call) and isinstance(value.func, ast.Name) and value.func.id == "list" and not value.args and not value.keywords)
                 if not ok:
@@ -594,7 +655,7 @@ class Translator:
                 e2 = env.clone()
                 e2.h = "[]"
                 return k(e2)
-            if mode == "counter" and self.demangle(tg.attr) == COUNTER:
+            if mode in ("counter", "init") and self.demangle(tg.attr) == COUNTER:
                 c = self.class_expr(tg.value, env, write=True)
                 if c is None:
                     self.fail(node, f"assignment to `{ast.unparse(tg)}`: not the counter of a class")
@@ -612,14 +673,14 @@ class Translator:
                 self.fail(node, f"assignment to the parameter `{tg.id}`")
 
             def bind(v, e2):
-                if v.kind not in ("Z", "B", "Nat", "Key", "KEv", "Ev"):
+                if v.kind not in ("Z", "B", "Nat", "Key", "KEv", "Ev", "Param"):
                     self.fail(node, f"a value of kind {v.kind} assigned to a local")
                 e3 = e2.clone()
                 if v.const is not None or v.tx.isidentifier():
                     e3.locals[tg.id] = v
                     return k(e3)
                 nm = self.ctx.fresh("v_" + tg.id)
-                e3.locals[tg.id] = V(v.kind, nm)
+                e3.locals[tg.id] = V(v.kind, nm, prov=v.prov)
                 return f"let {nm} := {v.tx} in\n{k(e3)}"
             return self.expr(value, env, bind)
         self.fail(node, f"assignment target {type(tg).__name__}")
@@ -657,7 +718,8 @@ class Translator:
 
     def effect(self, node):
         if self.ctx.nobind:
-            self.fail(node, "an operand of and / or / a chained comparison / a conditional expression that needs a bind (call, indexing)")
+            raise NeedsBind(self.mod().path, node, "an operand of and / or / a chained comparison / an entry tuple that needs a bind "
+                                                  "(call, indexing) where the order of evaluation cannot be kept")
 
     # ------------------------------------------------------------------ texts
     def ztext(self, v):
@@ -678,9 +740,9 @@ class Translator:
         self.fail(node, f"truth value of a value of kind {v.kind}")
 
     # ------------------------------------------------------------------ expressions (CPS: k(value, env))
-    def is_list(self, e):
-        return self.ctx.mode == "heap" and isinstance(e, ast.Attribute) and isinstance(e.value, ast.Name) \
-            and e.value.id == "self" and e.attr == LIST_ATTR
+    def is_list(self, e, env):
+        return self.ctx.mode == "heap" and env.has_self and isinstance(e, ast.Attribute) and isinstance(e.value, ast.Name) \
+            and e.value.id == "self" and "self" not in env.locals and e.attr == LIST_ATTR
 
     def need_list(self, node, env):
         if env.h is None:
@@ -715,7 +777,8 @@ class Translator:
         finally:
             self.ctx.nobind -= 1
         if len(box) != 1:
-            self.fail(e, "operand that does not yield exactly one value")
+            raise NeedsBind(self.mod().path, e, "operand whose value is decided by control flow (a helper with several returns, a "
+                                                "conditional expression with effects) where a plain value is needed")
         return box[0]
 
     def expr(self, e, env, k):
@@ -734,7 +797,7 @@ class Translator:
                 return k(env.locals[e.id], env)
             self.fail(e, f"name `{e.id}` (not a parameter or a local assigned before on every path)")
         if isinstance(e, ast.Attribute):
-            if self.is_list(e):
+            if self.is_list(e, env):
                 return k(V("List", self.need_list(e, env)), env)
             if mode in ("counter", "init") and self.demangle(e.attr) == COUNTER:
                 c = self.class_expr(e.value, env)
@@ -748,9 +811,9 @@ class Translator:
                 if v.kind != "Ev":
                     self.fail(e, f"attribute .{e.attr} of a value of kind {v.kind}")
                 if e.attr in FIELDS:
-                    return k(V("Z", f"({FIELDS[e.attr]} {v.tx})"), e2)
+                    return k(V("Z", f"({FIELDS[e.attr]} {v.tx})", prov=(v.tx, FIELDS[e.attr], 1)), e2)
                 if e.attr in self.props:
-                    return k(V("Z", f"({self.props[e.attr]} {v.tx})"), e2)
+                    return k(V("Z", f"({self.props[e.attr]} {v.tx})", prov=(v.tx, self.propfield[e.attr], 1)), e2)
                 self.fail(e, f"attribute .{e.attr} of an event (not an ordering attribute or a translated property)")
             return self.expr(e.value, env, attr)
         if isinstance(e, ast.UnaryOp):
@@ -764,7 +827,8 @@ class Translator:
                         self.fail(e, f"unary {'-' if neg else '+'} on a value of kind {v.kind}")
                     if not neg:
                         return k(v, e2)
-                    return k(V("Z", const=-v.const) if v.const is not None else V("Z", f"(- {v.tx})%Z"), e2)
+                    return k(V("Z", const=-v.const) if v.const is not None else
+                             V("Z", f"(- {v.tx})%Z", prov=(v.prov[0], v.prov[1], -v.prov[2]) if v.prov else None), e2)
                 return self.expr(e.operand, env, un)
             self.fail(e, f"unary operator {type(e.op).__name__}")
         if isinstance(e, ast.BinOp):
@@ -782,20 +846,44 @@ class Translator:
                 return self.expr(e.right, e2, bin2)
             return self.expr(e.left, env, bin_)
         if isinstance(e, ast.BoolOp):
-            vs = [self.pure_sub(x, env) for x in e.values]
-            if any(v.kind != "B" for v in vs):
-                self.fail(e, "and / or of values that are not bools")
-            op = "&&" if isinstance(e.op, ast.And) else "||"
-            tx = vs[0].tx
-            for v in vs[1:]:
-                tx = f"({tx} {op} {v.tx})"
-            return k(V("B", tx), env)
+            is_and = isinstance(e.op, ast.And)
+            try:
+                vs = [self.pure_sub(x, env) for x in e.values]
+            except NeedsBind:
+                vs = None
+            if vs is not None:
+                if any(v.kind != "B" for v in vs):
+                    self.fail(e, "and / or of values that are not bools")
+                tx = vs[0].tx
+                for v in vs[1:]:
+                    tx = f"({tx} {'&&' if is_and else '||'} {v.tx})"
+                return k(V("B", tx), env)
+            # short circuit, left to right: `a and b` is `b if a else False`, `a or b` is `True if a else b` (bools only)
+            self.effect(e)
+
+            def chain(i, env1):
+                def got(v, e2):
+                    if v.kind != "B":
+                        self.fail(e, "and / or of values that are not bools")
+                    if i == len(e.values) - 1:
+                        return k(v, e2)
+                    rest, short = chain(i + 1, e2), k(V("B", "false" if is_and else "true"), e2)
+                    yes, no = (rest, short) if is_and else (short, rest)
+                    return f"if {v.tx} then\n{ind(blk(yes))}\nelse\n{ind(blk(no))}"
+                return self.expr(e.values[i], env1, got)
+            return chain(0, env)
         if isinstance(e, ast.IfExp):
-            c, a, b = self.pure_sub(e.test, env), self.pure_sub(e.body, env), self.pure_sub(e.orelse, env)
-            if a.kind != b.kind or a.kind not in ("Z", "B", "Nat"):
-                self.fail(e, f"conditional expression over kinds {a.kind}, {b.kind}")
-            tx = {"Z": self.ztext, "Nat": self.ntext, "B": lambda v: v.tx}[a.kind]
-            return k(V(a.kind, f"(if {self.truth(e, c)} then {tx(a)} else {tx(b)})"), env)
+            try:
+                c, a, b = self.pure_sub(e.test, env), self.pure_sub(e.body, env), self.pure_sub(e.orelse, env)
+                plain = a.kind == b.kind and a.kind in ("Z", "B", "Nat")
+            except NeedsBind:
+                plain = False
+            if plain:
+                tx = {"Z": self.ztext, "Nat": self.ntext, "B": lambda v: v.tx}[a.kind]
+                return k(V(a.kind, f"(if {self.truth(e, c)} then {tx(a)} else {tx(b)})"), env)
+            # `a if c else b` is `if c: <rest with a> else: <rest with b>`: the test first, then only the chosen operand
+            self.effect(e)
+            return self.cond(e.test, env, lambda e1: self.expr(e.body, e1, k), lambda e1: self.expr(e.orelse, e1, k))
         if isinstance(e, ast.Compare):
             if len(e.ops) == 1:
                 return self.expr(e.left, env, lambda a, e2: self.expr(e.comparators[0], e2,
@@ -841,24 +929,20 @@ class Translator:
         self.fail(node, f"comparison `{op}` between values of kinds {a.kind} and {b.kind}")
 
     def entry_tuple(self, e, env):
-        if self.ctx.mode != "heap" or len(e.elts) != 4 or not isinstance(e.elts[3], ast.Name):
+        if self.ctx.mode != "heap" or len(e.elts) != 4:
             self.fail(e, "tuple that is not an entry (x, y, z, event)")
-        ev = env.locals.get(e.elts[3].id)
-        if ev is None or ev.kind != "Ev":
-            self.fail(e, "the fourth component of the entry tuple is not an event parameter")
-        seen, parts = set(), []
-        for x in e.elts[:3]:
-            y = x.operand if isinstance(x, ast.UnaryOp) and isinstance(x.op, ast.USub) else x
-            if not (isinstance(y, ast.Attribute) and isinstance(y.value, ast.Name) and y.value.id == e.elts[3].id):
-                self.fail(x, "entry tuple component that is not (minus) an attribute of the event stored in it")
-            v = self.pure_sub(x, env)
-            seen.add(FIELDS.get(y.attr) or self.propfield.get(y.attr))
-            if v.kind != "Z":
-                self.fail(x, f"entry tuple component of kind {v.kind}")
-            parts.append(self.ztext(v))
-        if len(seen) != 3 or None in seen:
+        vs = [self.pure_sub(x, env) for x in e.elts]
+        ev = vs[3]
+        if ev.kind != "Ev":
+            self.fail(e, f"the fourth component of the entry tuple is a value of kind {ev.kind}, not an event")
+        seen = set()
+        for x, v in zip(e.elts[:3], vs[:3]):
+            if v.kind != "Z" or v.prov is None or v.prov[0] != ev.tx:
+                self.fail(x, "entry tuple component that is not (minus) an ordering attribute of the event stored in the entry")
+            seen.add(v.prov[1])
+        if len(seen) != 3:
             self.fail(e, "the first three components of the entry tuple are not three different ordering attributes of the event")
-        return V("Key", f"(mkKey {parts[0]} {parts[1]} {parts[2]})")
+        return V("Key", f"(mkKey {self.ztext(vs[0])} {self.ztext(vs[1])} {self.ztext(vs[2])})")
 
     def subscript(self, e, env, k):
         idx = e.slice
@@ -867,7 +951,7 @@ class Translator:
         if not (isinstance(idx, ast.Constant) and isinstance(idx.value, int) and not isinstance(idx.value, bool)):
             self.fail(e, "subscript that is not a constant index")
         i = idx.value
-        if self.is_list(e.value):
+        if self.is_list(e.value, env):
             if i != 0:
                 self.fail(e, f"self.{LIST_ATTR}[{i}] (only the root, index 0, is modelled)")
             self.effect(e)
@@ -907,12 +991,16 @@ class Translator:
                 return self.expr(e.args[0], env, ln)
             if f.id == "bool" and len(e.args) == 1:
                 return self.expr(e.args[0], env, lambda v, e2: k(V("B", self.truth(e, v)), e2))
+            if f.id in m.funcs:
+                if m.nbound.get(f.id, 0) != 1:
+                    self.fail(e, f"the module-level name `{f.id}` is bound more than once")
+                return self.inline(e, m.funcs[f.id], None, e.args, env, k)
             self.fail(e, f"call of `{f.id}`")
         if not isinstance(f, ast.Attribute):
             self.fail(e, f"call `{ast.unparse(e)[:60]}`")
         # heapq.*
         if mode == "heap" and isinstance(f.value, ast.Name) and f.value.id == m.heapq_name and m.heapq_name not in env.locals:
-            if not e.args or not self.is_list(e.args[0]):
+            if not e.args or not self.is_list(e.args[0], env):
                 self.fail(e, f"{m.heapq_name}.{f.attr} on something else than self.{LIST_ATTR}")
             h = self.need_list(e, env)
             if f.attr == "heappush" and len(e.args) == 2:
@@ -936,7 +1024,7 @@ class Translator:
                 return f"let {e3.h} := hheapify L {h} in\n{k(V('None'), e3)}"
             self.fail(e, f"{m.heapq_name}.{f.attr} with {len(e.args)} arguments")
         # methods of the list
-        if self.is_list(f.value):
+        if self.is_list(f.value, env):
             h = self.need_list(e, env)
             if f.attr == "count" and len(e.args) == 1:
                 def cnt(v, e2):
@@ -965,6 +1053,12 @@ class Translator:
             c = self.class_expr(f.value, env)
             if c is not None:
                 mname = self.demangle(f.attr)
+                fdef = self.find_method("SimEvent", mname, e)
+                if fdef is not None and [ast.unparse(d) for d in fdef.decorator_list] != ["classmethod"]:
+                    recv = env.locals.get(f.value.id) if isinstance(f.value, ast.Name) else None
+                    if recv is None or recv.kind != "SelfNew":
+                        self.fail(e, f"call of the instance method SimEvent.{mname} through a class")
+                    return self.inline(e, fdef, "SimEvent", e.args, env, k, self_v=recv, is_method=True)
                 sig = self.method("SimEvent", mname, e)
                 if sig["mode"] != "counter" or e.args:
                     self.fail(e, f"call of SimEvent.{mname} through a class")
@@ -974,7 +1068,12 @@ class Translator:
                 return f"let '({r}, {e3.cv}) := {sig['name']} {env.cv} {c} in\n{k(V('Z', r), e3)}"
             self.fail(e, f"call `{ast.unparse(e)[:60]}`")
         # self.m(..) in EventListHeap
-        if mode == "heap" and isinstance(f.value, ast.Name) and f.value.id == "self":
+        if mode == "heap" and isinstance(f.value, ast.Name) and f.value.id == "self" and env.has_self and "self" not in env.locals:
+            if f.attr not in EL_METHODS:
+                fdef = self.find_method("EventListHeap", f.attr, e)
+                if fdef is None:
+                    self.fail(e, f"method EventListHeap.{f.attr} not found (inherited methods are not resolved)")
+                return self.inline(e, fdef, "EventListHeap", e.args, env, k, is_method=True)
             sig = self.method("EventListHeap", f.attr, e)
             if len(e.args) != len(sig["params"]):
                 self.fail(e, f"{f.attr}() called with {len(e.args)} arguments, it has {len(sig['params'])} parameters")
@@ -1000,7 +1099,13 @@ class Translator:
             def recv(v, e2):
                 if v.kind != "Ev":
                     self.fail(e, f"method call on a value of kind {v.kind}")
-                sig = self.method("SimEvent", self.demangle(f.attr), e)
+                mname = self.demangle(f.attr)
+                if mname not in CMP_METHODS + ["__cmp__"]:
+                    fdef = self.find_method("SimEvent", mname, e)
+                    if fdef is None:
+                        self.fail(e, f"method SimEvent.{mname} not found (inherited methods are not resolved)")
+                    return self.inline(e, fdef, "SimEvent", e.args, e2, k, self_v=v, is_method=True)
+                sig = self.method("SimEvent", mname, e)
                 if sig["mode"] != "pure" or len(e.args) != len(sig["params"]):
                     self.fail(e, f"call of SimEvent.{f.attr} with {len(e.args)} arguments")
 
@@ -1012,6 +1117,67 @@ class Translator:
                 return self.exprs(e.args, e2, with_args)
             return self.expr(f.value, env, recv)
         self.fail(e, f"call `{ast.unparse(e)[:60]}`")
+
+    # ------------------------------------------------------------------ private helpers: translated at the call site
+    INLINE_KINDS = ("Z", "B", "Nat", "Key", "KEv", "Ev")
+
+    def inline(self, node, fdef, owner, arg_nodes, env, k, self_v=None, is_method=False):
+        """the call `helper(args)` as the body of the helper with its parameters bound to the argument values
+        (evaluated first, left to right); `return v` inside continues the caller with v, falling off the end with None.
+        `owner`: class name or None for a module-level function.  Refused: recursion, decorators other than
+        @staticmethod, *args / **kwargs / defaults / keyword-only parameters, nested functions, loops, try, with."""
+        what = f"{owner + '.' if owner else ''}{fdef.name}"
+        key = (owner, fdef.name)
+        if key in self.inl_stack or (owner, fdef.name) in self.stack:
+            self.fail(node, f"recursive call of the helper {what}")
+        if isinstance(fdef, ast.AsyncFunctionDef):
+            self.fail(fdef, f"async helper {what}")
+        decos = [ast.unparse(d) for d in fdef.decorator_list]
+        static = decos == ["staticmethod"] and is_method
+        if decos and not static:
+            self.fail(fdef, f"helper {what} decorated {decos}")
+        a = fdef.args
+        if a.vararg or a.kwarg or a.kwonlyargs or a.posonlyargs or a.defaults:
+            self.fail(fdef, f"helper {what}: *args / **kwargs / default values / keyword-only / positional-only parameters")
+        params = [x.arg for x in a.args]
+        if is_method and not static:
+            if not params or params[0] != "self":
+                self.fail(fdef, f"helper {what}: first parameter is not `self`")
+            params = params[1:]
+        if len(params) != len(arg_nodes):
+            self.fail(node, f"{what}() called with {len(arg_nodes)} arguments, it has {len(params)} parameters")
+        self.forbid_nested(fdef, owner or self.ctx.cls)
+        body = self.body_of(fdef)
+
+        def with_args(args, e2):
+            for v in args:
+                if v.kind not in self.INLINE_KINDS:
+                    self.fail(node, f"argument of kind {v.kind} passed to the helper {what} (the list itself may not be aliased)")
+            inner = Env()
+            inner.h, inner.cv, inner.fields = e2.h, e2.cv, dict(e2.fields)
+            inner.has_self = bool(is_method and not static and e2.has_self)
+            if is_method and not static and self_v is not None:
+                inner.locals["self"] = self_v
+            for pn, v in zip(params, args):
+                inner.locals[pn] = v
+
+            def back(v, e3):
+                # the helper returned: the caller goes on with its own locals and the state the helper left
+                out = e2.clone()
+                out.h, out.cv, out.fields = e3.h, e3.cv, dict(e3.fields)
+                self.inl_stack.remove(key)
+                try:
+                    return k(v, out)
+                finally:
+                    self.inl_stack.append(key)
+            inner.retk = back
+            self.inl_stack.append(key)
+            try:
+                return self.block(body, inner, lambda e3: back(V("None"), e3))
+            finally:
+                self.inl_stack.remove(key)
+        self.inlined.add(f"{what} ({self.mod().path.name}:{fdef.lineno})")
+        return self.exprs(arg_nodes, env, with_args)
 
     def exprs(self, es, env, k, acc=()):
         if not es:
@@ -1130,7 +1296,7 @@ def main(argv):
         h.update((r["definition"] + ":" + r["sha1"] + "\n").encode())
     info = {**base, "ok": not failures, "source_sha1": {"simevent.py": tr.se.sha1, "eventlist.py": tr.el.sha1},
             "translated_text_sha1": h.hexdigest(), "generated_sha1": hashlib.sha1(gen.encode()).hexdigest(),
-            "methods": tr.translated, "skipped": tr.skipped, "failures": failures}
+            "methods": tr.translated, "skipped": tr.skipped, "inlined_helpers": sorted(tr.inlined), "failures": failures}
     report(info)
     for f in failures:
         print(f"py2gallina_eventlist: TRANSLATION FAILED (group {f['group']} left out)\n{f['error']}", file=sys.stderr)
